@@ -153,6 +153,11 @@ func GenOAFile(r *R, idx int, o OAOpts) (*ir.Request, []string) {
 			svc.Headers = GenHeaders(r.Fork(fmt.Sprintf("sh%d", s)), 2)
 		}
 		nm := 1 + r.Intn(4)
+		if s == 1 && o.on("empty_service", r, 1, 8) {
+			// a placeholder service that declares no RPC yet: it still gets its document
+			nm = 0
+			tag("empty_service")
+		}
 		for i := 0; i < nm; i++ {
 			reqNo++
 			verb := Pick(r, verbs)
